@@ -197,6 +197,14 @@ pub fn run_c14(cx: &Ctx) -> i32 {
                         if needed > 1 {
                             t.count("limit_exceeded_cases", 1);
                         }
+                        if pos == 0 {
+                            // is_match honours the limit too (its run is the same search from 0)
+                            let im = engine::is_match(l1, text);
+                            let ok = if needed > 1 { matches!(&im, Err(e) if e.contains("BacktrackLimitExceeded")) } else { im == Ok(matches!(base, Out::Match(_))) };
+                            if !ok && !matches!(&im, Err(e) if e.starts_with("Panic")) {
+                                viol(&mut t, text, 0, format!("backtrack_limit(1): the search needs {} backtracks, is_match returns {:?} (captures: {})", needed, im, r.short()));
+                            }
+                        }
                     }
                     // non-trivial: the flag matters on this case
                     if e != base {
